@@ -21,6 +21,7 @@
   (gemmill/mempool), concurrent submitters against the commit path (the pool is one mutex).
 -/
 import AnnVerif.Lemmas.PoolMem
+import AnnVerif.Model.Fifo
 namespace AnnVerif.C19
 open AnnVerif AnnVerif.Pool
 
@@ -153,5 +154,124 @@ theorem asFound_same_nonce_accepted_and_leaked :
 /-- non-vacuity: gapped submissions wait, the gap closes, everything is promoted in order -/
 example : ((reapAll (run { pendingLimit := 10, waitingLimit := 10 }
     [.submit ⟨1, 0, 2⟩, .submit ⟨2, 0, 1⟩, .submit ⟨3, 0, 0⟩, .commit [] [(0, 0)]])).2.map (·.nonce)) = [0, 1, 2] := by decide
+
+/-! ### the FIFO mempool (gemmill/mempool) -/
+
+namespace FifoProps
+open AnnVerif.Fifo
+
+inductive FOp where
+  | recv (t : Nat)
+  | update (block : List Nat)
+
+def fstep (m : Mem) : FOp → Mem
+  | .recv t => (receive m t).1
+  | .update b => update {} m b
+
+/-- the transactions contained in the blocks committed along a sequence -/
+def committedIn : List FOp → List Nat
+  | [] => []
+  | .recv _ :: r => committedIn r
+  | .update b :: r => b ++ committedIn r
+
+/-- what holds in every state: no transaction twice in the list, the list is within the cache -/
+structure FInv (m : Mem) : Prop where
+  nodup : m.txs.Nodup
+  cached : ∀ t ∈ m.txs, t ∈ m.cache
+
+theorem fstep_inv (m : Mem) (op : FOp) (h : FInv m) : FInv (fstep m op) := by
+  cases op with
+  | recv t =>
+    simp only [fstep, receive]
+    split
+    · exact h
+    · rename_i hc
+      have hnc : t ∉ m.cache := by simpa using hc
+      refine ⟨?_, ?_⟩
+      · rw [List.nodup_append]
+        refine ⟨h.nodup, by simp, ?_⟩
+        intro a ha b hb
+        simp at hb; subst hb
+        intro e; subst e
+        exact hnc (h.cached _ ha)
+      · intro x hx
+        simp only [List.mem_append, List.mem_singleton] at hx ⊢
+        rcases hx with hx | hx
+        · exact Or.inl (h.cached x hx)
+        · exact Or.inr hx
+  | update b =>
+    simp only [fstep, update]
+    refine ⟨h.nodup.filter _, ?_⟩
+    intro x hx
+    have := (List.mem_filter.mp hx).1
+    simp only [if_true, List.mem_append]
+    exact Or.inl (h.cached x this)
+
+/-- G: everything committed so far is in the cache and not in the list -/
+def Gone (c : List Nat) (m : Mem) : Prop := ∀ t ∈ c, t ∈ m.cache ∧ t ∉ m.txs
+
+theorem fstep_gone (m : Mem) (op : FOp) (c : List Nat) (hg : Gone c m) :
+    Gone (c ++ committedIn [op]) (fstep m op) := by
+  cases op with
+  | recv t =>
+    simp only [committedIn, List.append_nil, fstep, receive]
+    split
+    · exact hg
+    · rename_i hc
+      have hnc : t ∉ m.cache := by simpa using hc
+      intro x hx
+      obtain ⟨h1, h2⟩ := hg x hx
+      refine ⟨by simp [h1], ?_⟩
+      simp only [List.mem_append, List.mem_singleton, not_or]
+      exact ⟨h2, fun e => hnc (e ▸ h1)⟩
+  | update b =>
+    simp only [committedIn, List.append_nil, fstep, update, if_true]
+    intro x hx
+    rcases List.mem_append.mp hx with hx | hx
+    · obtain ⟨h1, h2⟩ := hg x hx
+      exact ⟨by simp [h1], fun hm => h2 (List.mem_filter.mp hm).1⟩
+    · refine ⟨?_, ?_⟩
+      · by_cases hc : x ∈ m.cache
+        · simp [hc]
+        · simp only [List.mem_append, List.mem_filter]
+          right
+          exact ⟨by simpa using hx, by simpa using hc⟩
+      · intro hm
+        have := (List.mem_filter.mp hm).2
+        simp at this
+        exact this hx
+
+theorem committedIn_append (a b : List FOp) : committedIn (a ++ b) = committedIn a ++ committedIn b := by
+  induction a with
+  | nil => rfl
+  | cons x r ih => cases x <;> simp [committedIn, ih]
+
+/-- Q5: along ANY sequence of receptions and commits (no flush), the mempool never holds a
+    transaction twice, and never holds — so never offers — a transaction that a committed block
+    contained, whether the node had seen it before or not, however often it is received again -/
+theorem fifo_never_offers_committed_or_duplicate (ops : List FOp) :
+    (ops.foldl fstep {}).txs.Nodup ∧ ∀ t ∈ committedIn ops, t ∉ (ops.foldl fstep {}).txs := by
+  have key : ∀ (ops : List FOp) (m : Mem) (c : List Nat), FInv m → Gone c m →
+      FInv (ops.foldl fstep m) ∧ Gone (c ++ committedIn ops) (ops.foldl fstep m) := by
+    intro ops
+    induction ops with
+    | nil => intro m c h g; simpa [committedIn] using ⟨h, g⟩
+    | cons op r ih =>
+      intro m c h g
+      simp only [List.foldl]
+      have := ih (fstep m op) (c ++ committedIn [op]) (fstep_inv m op h) (fstep_gone m op c g)
+      have e : c ++ committedIn [op] ++ committedIn r = c ++ committedIn (op :: r) := by
+        rw [List.append_assoc, ← committedIn_append]; rfl
+      rw [e] at this
+      exact this
+  obtain ⟨h1, h2⟩ := key ops {} [] ⟨by simp, by simp⟩ (by intro t ht; simp at ht)
+  exact ⟨h1.nodup, fun t ht => (h2 t (by simpa using ht)).2⟩
+
+/-- as found a committed transaction that is received again is back in the mempool -/
+theorem asFound_committed_accepted_again :
+    ((receive (update ⟨false⟩ (receive {} 7).1 [7]) 7).1.txs) = [7] ∧
+    ((receive (update {} (receive {} 7).1 [7]) 7).1.txs) = [] := by decide
+
+end FifoProps
 
 end AnnVerif.C19
